@@ -106,6 +106,16 @@ def r_acct(F, V):
                                 "(too high: no EMPTY byte is left and probes never terminate; too low: capacity shrinks on every tombstone reuse)", line=line_of(body, stmt=s),
                                 growth_left_stores=[str(g[3][0]) for g in gl_shapes])
                     R.inst(key, "unpaired items += 1", "violation", True, where(body, stmt=s))
+            # ---- (i) `items` only ever moves by exactly one (a FULL byte written / cleared), is reset, or is copied
+            if shape[0] in ("inc", "dec") and not _is_const_one(shape[1]):
+                R.violation("%s|items-step" % p, body,
+                            "`items` is changed by an amount that is not the constant 1 (%s a computed value): every element stored makes one control byte FULL and must be counted, "
+                            "whether the slot was EMPTY or a reused tombstone - otherwise len()/iteration (which stop after `items` elements) miss stored elements" % ("adds" if shape[0] == "inc" else "subtracts"),
+                            line=line_of(body, stmt=s))
+                R.inst("%s|items-step" % p, "items moved by a non-unit amount", "violation", True, where(body, stmt=s))
+            elif shape[0].startswith("binop:") or shape[0] == "other":
+                R.violation("%s|items-step" % p, body, "`items` is assigned a computed value (%s) instead of +1 / -1 / 0 / a copy of another table's count" % shape[0], line=line_of(body, stmt=s))
+                R.inst("%s|items-step" % p, "items assigned a computed value", "violation", True, where(body, stmt=s))
             # ---- (b) items - 1 preceded by a special-tag store
             if shape[0] == "dec" and _is_const_one(shape[1]):
                 n_dec += 1
@@ -182,6 +192,44 @@ def r_acct(F, V):
                 R.inst(key, bad, "violation", True, where(body))
             else:
                 R.inst(key, "fill_empty + items = 0 + growth_left = bucket_mask_to_capacity(bucket_mask)", "ok", True, where(body))
+        # ---- (j) growth_left is reset to the WHOLE capacity only together with a reset of every control byte
+        for (gi, gk, gs, gshape, gorig) in gl_shapes:
+            calls = _calls_in_origins(gorig)
+            if not any(c.endswith("bucket_mask_to_capacity") for c in calls):
+                continue
+            if gshape[0] in ("binop:Sub", "dec") or [o for o in gorig if o[0] == "binop" and str(o[1]).startswith("Sub")]:
+                continue
+            key = "%s|growth_left=whole-capacity" % p
+            # every path from entry to the store passes a fill_empty, except through the `is_empty_singleton()` arm
+            # (the shared static table is all EMPTY by construction)
+            cut = set()
+            for bb in body.normal:
+                tt = body.term(bb)
+                if tt["k"] == "switch" and tt["discr"]["k"] in ("copy", "move"):
+                    if any((callee_path(o[2]) or "").endswith("is_empty_singleton") for o in body.origins(tt["discr"]) if o[0] == "call"):
+                        zero = [x for v, x in tt["targets"] if v == 0]
+                        for x in body.nsucc[bb]:
+                            if x not in zero:
+                                cut.add((bb, x))
+            seen_, work_ = {0}, [0]
+            while work_:
+                x = work_.pop()
+                if x in fills:
+                    continue
+                for y in body.nsucc[x]:
+                    if (x, y) in cut or y in seen_:
+                        continue
+                    seen_.add(y)
+                    work_.append(y)
+            paired = bool(fills) and (gi not in seen_ or gi in fills)
+            if not paired and fills and any(body.dominates(gi, j) for j in fills):
+                paired = True
+            if paired:
+                R.inst(key, "growth_left = bucket_mask_to_capacity(bucket_mask) together with fill_empty of all control bytes", "ok", True, where(body, stmt=gs))
+            else:
+                R.violation(key, body, "growth_left is reset to the whole capacity on a path that does not reset every control byte to EMPTY (no fill_empty on that path): DELETED markers left in the table "
+                            "are then counted as free room, inserts consume the last EMPTY bytes, and a probe for an absent key never terminates", line=line_of(body, stmt=gs))
+                R.inst(key, "whole-capacity reset without clearing tombstones", "violation", True, where(body, stmt=gs))
         # ---- (f) growth_left = <capacity> - items uses the 7/8 capacity, never the bucket count
         for (gi, gk, gs, gshape, gorig) in gl_shapes:
             if gshape[0] in ("binop:Sub", "dec"):
